@@ -478,7 +478,11 @@ func (ls *libSession) call(path string, args []string) Outcome {
 		return Outcome{Class: "value", Rets: clip(tr.Rets, 100), NonTrivial: true}
 	default:
 		msg := strings.TrimPrefix(tr.Rets, "false ")
-		return Outcome{Class: "error", Msg: clip(msg, 200), NonTrivial: !argCheckRe.MatchString(msg)}
+		o := Outcome{Class: "error", Msg: clip(msg, 200), NonTrivial: !argCheckRe.MatchString(msg)}
+		if strings.Contains(msg, "limit of") && strings.Contains(msg, "exceeded") {
+			o.Note = "limit-as-error" // pcall turned the context's kill into an error (C05's business)
+		}
+		return o
 	}
 }
 
@@ -794,9 +798,14 @@ func workLib(w *worker) {
 			if o.Note == "runner" {
 				w.rec.Class("lib-runner-error")
 			}
+			if o.Note == "limit-as-error" {
+				w.rec.Class("lib-error-is-cpu-or-memory-limit")
+			}
 			if o.NonTrivial {
 				w.nonTrivial(c.Key())
 				w.rec.Class("lib-nontrivial")
+			} else if o.Class == "error" {
+				w.rec.Class("lib-error-from-argument-check")
 			}
 			w.rec.Sample(map[string]any{"kind": "lib", "fn": path, "args": c.Args, "outcome": o.Class, "msg": clip(o.Msg, 120)})
 			if o.Class == "panic" {
@@ -865,6 +874,7 @@ func superviseLib(rec *ev.Recorder, known map[string]bool) {
 	for deaths < 25 {
 		x := runChild(Job{Mode: "lib", Arity: arity, FromFn: fromFn, FromT: fromT, Known: known, HangS: 60}, 60*time.Minute)
 		mergePartial(rec, x.res)
+		fmt.Printf("lib worker: %.1fs\n", x.wall.Seconds())
 		if x.res != nil && x.res.Done {
 			return
 		}
